@@ -200,7 +200,9 @@ pub fn dispatch(a: &Args) -> Option<(Acc, RunMeta)> {
                 }
             }
             acc.merge(engine::run(&faulty));
-            Some((acc, meta(a, "untyped histories + timestamp setters on OverlayFS with 2-4 pre-populated layers (Mem/Phys/Alt/nested Ovl); recording wrapper around every filesystem of the stack: no mutating call may reach a node inside a lower layer, no mutating call during pure observers; deep state (type, bytes, created, modified) of every lower layer compared before/after every step; distinct = distinct observable states", ENGINE_ASSUMPTIONS)))
+            // the async port's overlay: deep state of every lower layer (through its own view) unchanged after every step
+            acc.merge(par_run(a, "c08-async", a.n(500, 8000), c15::async_lower_untouched_case));
+            Some((acc, meta(a, "untyped histories + timestamp setters on OverlayFS with 2-4 pre-populated layers (Mem/Phys/Alt/nested Ovl); recording wrapper around every filesystem of the stack: no mutating call may reach a node inside a lower layer, no mutating call during pure observers; deep state (type, bytes, created, modified) of every lower layer compared before/after every step; async pass: untyped histories + setters on AsyncOverlayFS with 2-3 pre-populated memory/physical layers, deep state of every lower layer read through the layer's own async view compared with its initial value after every step; distinct = distinct observable states", ENGINE_ASSUMPTIONS)))
         }
         "C12" => {
             // no kept-open write handles here: a stale handle published after its file was removed leaves an upper-layer
